@@ -96,7 +96,13 @@ func (r *Report) Count(k string, n int64) { r.Counters[k] += n }
 func (r *Report) Bound(k string, v any)   { r.Bounds[k] = v }
 func (r *Report) Note(f string, a ...any) { r.Notes = append(r.Notes, fmt.Sprintf(f, a...)) }
 func (r *Report) NotDone(f string, a ...any) {
-	r.Incomplete = append(r.Incomplete, fmt.Sprintf(f, a...))
+	msg := fmt.Sprintf(f, a...)
+	for _, m := range r.Incomplete {
+		if m == msg {
+			return
+		}
+	}
+	r.Incomplete = append(r.Incomplete, msg)
 }
 
 func (r *Report) Sample(v any) {
@@ -129,7 +135,9 @@ func (r *Report) Merge(o *Report) {
 	}
 	r.Findings = append(r.Findings, o.Findings...)
 	r.NFindings += o.NFindings
-	r.Incomplete = append(r.Incomplete, o.Incomplete...)
+	for _, m := range o.Incomplete {
+		r.NotDone("%s", m)
+	}
 	for k, v := range o.Bounds {
 		r.Bounds[k] = v
 	}
